@@ -72,6 +72,9 @@ def run(ctx):
            'get_label_proof forwards (label, freshness, version) unchanged' if ok else 'get_label_proof does not forward (label, freshness, version)')
     vs.primitives(ctx, 'C18', which=('label', 'existence', 'nonexistence'))
     encodings_exact(ctx)
+    # the batched derivation used by publish pairs every input with its own label, under the storage's own key
+    from rules import c14
+    c14.cfg_twins(ctx, pfx='C18', need_both=False)
 
 
 def encodings_exact(ctx):
